@@ -38,6 +38,31 @@ func handle(toks []string) string {
 			chunks = "t" + hx(w.String())
 		}
 		return classify(err, -1) + " " + chunks
+	case "wasmfail":
+		// wasmfail BUDGET D INPUT : an Output whose writer fails after BUDGET bytes (the result does not matter; what
+		// a failed call leaves behind in the process does)
+		n := 0
+		for _, c := range toks[1] {
+			n = n*10 + int(c-'0')
+		}
+		var opts []gtree.Option
+		if toks[2] == "1" {
+			opts = append(opts, gtree.WithDryRun())
+		}
+		_ = gtree.Output(&shortWriter{left: n}, mkReader(unhex(toks[3])), opts...)
+		return "b"
 	}
 	return "badcase"
+}
+
+type shortWriter struct{ left int }
+
+func (s *shortWriter) Write(p []byte) (int, error) {
+	if len(p) <= s.left {
+		s.left -= len(p)
+		return len(p), nil
+	}
+	n := s.left
+	s.left = 0
+	return n, errInjectedWriter
 }
